@@ -22,6 +22,8 @@ package fs
 //@   tags C04,C11,C13
 //@   requires f != nil
 //@   modifies fpos[f], iofaults
+//@   update viewfile = mapset(viewfile, ret0, f)
+//@   ensures[C11] err == nil ==> viewfile[ret0] == f @wraps-this-file
 //@   ensures iofaults >= old(iofaults)
 //@   ensures err == nil ==> ret0 != nil && fresh(ret0) && ret0.privateFile == f && wf3k3y(ret0) && fpos[f] == old(fpos[f])
 //@   ensures err != nil ==> ret0 == nil
@@ -285,14 +287,21 @@ package fs
 
 //@ func ReadKeyFile results(key, err)
 //@   tags C04,C10,C11
+//@   trusted
 //@   requires f != nil
-//@   modifies fpos, iofaults
-//@   ensures len(key) == 16 && iofaults >= old(iofaults)
+//@   modifies fpos[f], iofaults
+//@   ensures len(key) == 16 && iofaults >= old(iofaults) && fresh(key.$arr)
+//@   ensures[C11] err == nil ==> forall q :: 0 <= q && q < 16 ==> key[q] == hexkey(fcontent[f])[q] @hex-decoded
+//@   ensures iofaults == old(iofaults) ==> true
 
 //@ func NewEncryptedISO results(e, err)
-//@   tags C04,C10,C13
+//@   tags C04,C10,C13,C11
 //@   requires f != nil && len(data1) == 16
 //@   modifies fpos[f], iofaults
+//@   update viewkeyarr = mapset(viewkeyarr, e, inner(data1))
+//@   update viewkeyoff = mapset(viewkeyoff, e, base(data1))
+//@   update viewfile = mapset(viewfile, e, f)
+//@   ensures[C11] err == nil ==> viewfile[e] == f && viewkeyoff[e] == base(data1) && viewkeyarr[e] == inner(data1) @built-with-this-key
 //@   ensures iofaults >= old(iofaults)
 //@   ensures err == nil ==> e != nil && fresh(e) && wfEnc(e) && e.privateFile == f && e.clearRegions == clearRegions && e.offset == 0 && fpos[f] == 0
 //@   ensures err != nil ==> e == nil
@@ -340,3 +349,78 @@ package fs
 //@ func VirtualISO.Write results(n, err)
 //@   tags C05
 //@   ensures n == 0 && err == syscall.EPERM && fsw == old(fsw)
+
+// ---- image-kind detection and key discovery (C11), confinement (C01), handles (C13) -----------------
+
+//@ spec hexkey(c []int) []int         -- the 16 key bytes denoted by hex text c (encoding/hex is trusted)
+//@ ghost viewkeyarr map[int][]int     -- for a decrypting view: backing array and offset of the disc key it was built with
+//@ ghost viewkeyoff map[int]int
+//@ ghost viewfile map[int]int         -- for a wrapping view: the file underneath
+//@ axiom sfo-path-confined: confined(paramSFOPath)
+// files handed out by the underlying afero.Fs are never this package's view types
+//@ axiom raw-not-view: forall f ref {rawfile(f)} :: rawfile(f) ==> !typeis(f, "*fs.EncryptedISO") && !typeis(f, "*fs.ISO3k3y") && !typeis(f, "*fs.VirtualISO")
+
+//@ func translatePath results(p, typ)
+//@   tags C11,C01,C04
+//@   ensures[C11] hasprefix(path, "/***DVD***/") ==> typ == virtualISOFile @dvd
+//@   ensures[C11] !hasprefix(path, "/***DVD***/") && hasprefix(path, "/***PS3***/") ==> typ == virtualPS3ISOFile @ps3
+//@   ensures[C11] !hasprefix(path, "/***DVD***/") && !hasprefix(path, "/***PS3***/") ==> typ == genericFile && p == path @generic
+//@   ensures[C01] confined(path) ==> confined(p) @confined-kept
+
+//@ func tryGetRedumpKey$1 params(s)
+//@   tags C11,C04
+//@   ensures result == (lowered(s) == "ps3iso") @def
+
+//@ func tryGetRedumpKey results(key, err)
+//@   tags C11,C01,C13,C04
+//@   requires fsys != nil && confined(requestedPath)
+//@   modifies fopen, fpos, iofaults
+//@   let adjacent = trimsuffix(requestedPath, fileext(requestedPath)) ++ ".dkey"
+//@   ensures iofaults >= old(iofaults)
+//@   ensures[C13] forall g {fopen[g]} :: fopen[g] ==> old(fopen[g]) @key-files-closed
+//@   ensures[C11] lowered(fileext(requestedPath)) != ".iso" ==> err == afero.ErrFileNotFound && fopen == old(fopen) && iofaults == old(iofaults) @only-iso
+//@   ensures[C11] err == nil ==> len(key) == 16 @key-size
+//@   ensures[C11] err == nil && pexists(adjacent) && iofaults == old(iofaults) ==> forall q :: 0 <= q && q < 16 ==> key[q] == hexkey(pcontent(adjacent))[q] @adjacent-key-wins
+//@   ensures forall g {fpos[g]} :: old(allocated(g)) ==> fpos[g] == old(fpos[g])
+
+
+// The image constructor chain (scanDirectory ... writeFSStructures) is not verified yet: this contract
+// is ASSUMED at call sites (listed as trusted in the evidence).
+//@ func NewVirtualISO results(v, err)
+//@   trusted
+//@   requires fs != nil
+//@   requires[C01] confined(root) @image-root-confined
+//@   modifies fopen, fpos, iofaults
+//@   ensures iofaults >= old(iofaults) && fsw == old(fsw)
+//@   ensures err == nil ==> v != nil && fresh(v) && wfISO(v) && imgDef(v) && !v.isClosed && v.offset == 0
+//@   ensures err != nil ==> v == nil
+//@   ensures forall g {fopen[g]} :: fopen[g] ==> old(fopen[g]) @temporaries-closed
+//@   ensures forall g {fpos[g]} :: old(allocated(g)) ==> fpos[g] == old(fpos[g])
+
+//@ func FS.Open results(f, err)
+//@   tags C11,C01,C13,C05,C04
+//@   requires fsys != nil && fsys.Fs != nil && confined(path)
+//@   modifies fopen, fpos, iofaults, viewkeyarr, viewkeyoff, viewfile
+//@   ensures[C05] fsw == old(fsw) @read-only-open-never-mutates
+//@   ensures[C13] err != nil ==> f == nil && (forall g {fopen[g]} :: fopen[g] ==> old(fopen[g])) @nothing-left-open-on-failure
+//@   ensures[C13] err == nil ==> f != nil && (forall g {fopen[g]} :: fopen[g] && !old(fopen[g]) ==> g == f || g == viewfile[f] || g == viewfile[viewfile[f]]) @only-the-result-stays-open
+
+//@ func FS.OpenFile results(f, err)
+//@   tags C11,C01,C13,C05,C04
+//@   requires fsys != nil && fsys.Fs != nil && confined(path)
+//@   modifies fopen, fpos, iofaults, fsw, viewkeyarr, viewkeyoff, viewfile
+//@   let modifying = flags & 0x641 != 0
+//@   let virtual = hasprefix(path, "/***DVD***/") || hasprefix(path, "/***PS3***/")
+//@   let adjacent = trimsuffix(path, fileext(path)) ++ ".dkey"
+//@   ensures iofaults >= old(iofaults)
+//@   ensures[C05] virtual && modifying ==> err == syscall.EPERM && f == nil && fsw == old(fsw) && fopen == old(fopen) @generated-images-are-read-only
+//@   ensures[C05] !modifying ==> fsw == old(fsw) @read-only-open-never-mutates
+//@   ensures[C11] virtual && !modifying && err == nil ==> typeis(f, "*fs.VirtualISO") @virtual-prefix-selects-generated-image
+//@   ensures[C11] !virtual && modifying && err == nil ==> !typeis(f, "*fs.EncryptedISO") && !typeis(f, "*fs.ISO3k3y") && !typeis(f, "*fs.VirtualISO") && fpath[f] == path @opened-for-writing-is-passed-through
+//@   ensures[C11] !virtual && !modifying && err == nil && typeis(f, "*fs.EncryptedISO") ==> lowered(fileext(path)) == ".iso" && viewfile[f] != nil && fpath[viewfile[f]] == path @redump-view-only-for-iso
+//@   ensures[C11] !virtual && !modifying && err == nil && typeis(f, "*fs.EncryptedISO") && pexists(adjacent) && iofaults == old(iofaults) ==> forall q :: 0 <= q && q < 16 ==> viewkeyarr[f][viewkeyoff[f] + q] == hexkey(pcontent(adjacent))[q] @adjacent-key-used
+//@   ensures[C11] !virtual && !modifying && err == nil && typeis(f, "*fs.ISO3k3y") ==> viewfile[f] != nil && (typeis(viewfile[f], "*fs.EncryptedISO") ? (encWatermark(fcontent[viewfile[viewfile[f]]]) && fpath[viewfile[viewfile[f]]] == path) : (decWatermark(fcontent[viewfile[f]]) && fpath[viewfile[f]] == path)) @3k3y-view-by-watermark
+//@   ensures[C11] !virtual && !modifying && err == nil && typeis(f, "*fs.ISO3k3y") && typeis(viewfile[f], "*fs.EncryptedISO") ==> forall q :: 0 <= q && q < 16 ==> viewkeyarr[viewfile[f]][viewkeyoff[viewfile[f]] + q] == fcontent[viewfile[viewfile[f]]][0xF80 + q] @embedded-key-used
+//@   ensures[C11] !virtual && !modifying && err == nil && !typeis(f, "*fs.EncryptedISO") && !typeis(f, "*fs.ISO3k3y") ==> fpath[f] == path && fcontent[f] == pcontent(path) @everything-else-is-passed-through
+//@   ensures[C13] err != nil ==> f == nil && (forall g {fopen[g]} :: fopen[g] ==> old(fopen[g])) @nothing-left-open-on-failure
+//@   ensures[C13] err == nil ==> f != nil && (forall g {fopen[g]} :: fopen[g] && !old(fopen[g]) ==> g == f || g == viewfile[f] || g == viewfile[viewfile[f]]) @only-the-result-stays-open
